@@ -24,24 +24,32 @@ pub fn gen(args: &[String]) -> i32 {
     0
 }
 
-/// (suffix, lo, hi) of the counter variants; bounds outside TLC's 32-bit integers are absent.
-fn ctype(rng: &mut StdRng, via: &str) -> (&'static str, Option<i64>, Option<i64>) {
+/// (suffix, lo, hi, off) of the counter variants.  The model works on small integers (TLC's are 32-bit):
+/// a run of a wide type looks at a WINDOW of its range, real value = off + model value, so that the
+/// bound of the type that lies inside the window is a small model number (hi = 1000 means the type's
+/// maximum) and the other bound is absent.
+fn ctype(rng: &mut StdRng, via: &str) -> (&'static str, Option<i64>, Option<i64>, i128) {
     if via == "struct" {
-        return ("INT", Some(-32768), Some(32767));
+        return ("INT", Some(-32768), Some(32767), 0);
     }
-    match rng.gen_range(0..6) {
-        0 | 1 => ("INT", Some(-32768), Some(32767)),
-        2 => ("DINT", Some(-2147483648), Some(2147483647)),
-        3 => ("UDINT", Some(0), None),
-        4 => ("ULINT", Some(0), None),
-        _ => ("LINT", None, None),
+    match rng.gen_range(0..10) {
+        0 | 1 => ("INT", Some(-32768), Some(32767), 0),
+        2 => ("DINT", Some(-2147483648), Some(2147483647), 0),
+        3 => ("UDINT", Some(0), None, 0),
+        4 => ("UDINT", None, Some(1000), u32::MAX as i128 - 1000),
+        5 => ("ULINT", Some(0), None, 0),
+        6 => ("ULINT", None, Some(1000), u64::MAX as i128 - 1000),
+        7 => ("LINT", None, None, 0),
+        8 => ("LINT", None, Some(1000), i64::MAX as i128 - 1000),
+        _ => ("LINT", Some(-1000), None, i64::MIN as i128 + 1000),
     }
 }
 
 fn gen_script(rng: &mut StdRng, kind: &str, via: &str) -> J {
     let n = rng.gen_range(3..14);
     let mut steps = Vec::new();
-    let (ct, lo, hi) = ctype(rng, via);
+    let (ct, lo, hi, off) = ctype(rng, via);
+    let windowed = off != 0; // CV must be put into the window first and never reset to the real 0
     let pts: [i64; 7] = [-1, 0, 1, 2, 3, 7, 1000];
     let mut pt = [pts[rng.gen_range(0..7)], pts[rng.gen_range(0..7)]];
     let vary_pt = rng.gen_bool(0.35);
@@ -62,6 +70,12 @@ fn gen_script(rng: &mut StdRng, kind: &str, via: &str) -> J {
         }
         v
     };
+    if windowed && matches!(kind, "CTU" | "CTD" | "CTUD") {
+        for i in 1..=2 {
+            let b = hi.or(lo).unwrap();
+            steps.push(json!({"a": "Preset", "i": i, "cv": b + [0i64, 0, 1, 2, 3, 5][rng.gen_range(0..6)] * if hi.is_some() { -1 } else { 1 }}));
+        }
+    }
     for k in 0..n {
         let i = rng.gen_range(1..=2usize);
         // mostly small steps (PT 1..7 is crossed step by step), now and then one that jumps far beyond PT
@@ -74,9 +88,9 @@ fn gen_script(rng: &mut StdRng, kind: &str, via: &str) -> J {
                 }
                 json!({"in": b(rng, 0.55), "pt": pt[i - 1]})
             }
-            "CTU" => json!({"cu": b(rng, 0.6), "r": b(rng, 0.1), "pv": pvs[rng.gen_range(0..pvs.len())]}),
+            "CTU" => json!({"cu": b(rng, 0.6), "r": !windowed && b(rng, 0.1), "pv": pvs[rng.gen_range(0..pvs.len())]}),
             "CTD" => json!({"cd": b(rng, 0.6), "ld": b(rng, 0.15), "pv": pvs[rng.gen_range(0..pvs.len())]}),
-            "CTUD" => json!({"cu": b(rng, 0.5), "cd": b(rng, 0.4), "r": b(rng, 0.08), "ld": b(rng, 0.12), "pv": pvs[rng.gen_range(0..pvs.len())]}),
+            "CTUD" => json!({"cu": b(rng, 0.5), "cd": b(rng, 0.4), "r": !windowed && b(rng, 0.08), "ld": b(rng, 0.12), "pv": pvs[rng.gen_range(0..pvs.len())]}),
             "R_TRIG" | "F_TRIG" => json!({"clk": b(rng, 0.5)}),
             "SR" => json!({"s1": b(rng, 0.4), "r": b(rng, 0.4)}),
             _ => json!({"s": b(rng, 0.4), "r1": b(rng, 0.4)}),
@@ -105,7 +119,7 @@ fn gen_script(rng: &mut StdRng, kind: &str, via: &str) -> J {
     } else {
         ""
     };
-    json!({"kind": kind, "via": via, "ctype": ct, "variant": variant, "hasLo": lo.is_some(), "lo": lo.unwrap_or(0), "hasHi": hi.is_some(), "hi": hi.unwrap_or(0), "steps": steps})
+    json!({"kind": kind, "via": via, "ctype": ct, "variant": variant, "off": off.to_string(), "hasLo": lo.is_some(), "lo": lo.unwrap_or(0), "hasHi": hi.is_some(), "hi": hi.unwrap_or(0), "steps": steps})
 }
 
 fn ms(d: Duration) -> i64 {
@@ -201,24 +215,28 @@ pub fn st_source(kind: &str, ct: &str, variant: &str) -> String {
     format!("PROGRAM P\nVAR\n  f1 : {fb};\n  f2 : {fb};\n  sel : INT;\n  {decl}\nEND_VAR\nIF sel = INT#1 THEN {} END_IF;\nIF sel = INT#2 THEN {} END_IF;\nEND_PROGRAM\n", call(1), call(2))
 }
 
-fn cval(ct: &str, v: i64) -> Value {
+fn cval(ct: &str, v: i64, off: i128) -> Value {
+    let x = off + v as i128;
     match ct {
-        "INT" => Value::Int(v as i16),
-        "DINT" => Value::DInt(v as i32),
-        "UDINT" => Value::UDInt(v as u32),
-        "LINT" => Value::LInt(v),
-        _ => Value::ULInt(v as u64),
+        "INT" => Value::Int(x as i16),
+        "DINT" => Value::DInt(x as i32),
+        "UDINT" => Value::UDInt(x as u32),
+        "LINT" => Value::LInt(x as i64),
+        _ => Value::ULInt(x as u64),
     }
 }
-fn cnum(v: &Value) -> J {
-    match v {
-        Value::Int(x) => json!(x),
-        Value::DInt(x) => json!(x),
-        Value::UDInt(x) => json!(x),
-        Value::LInt(x) => json!(x),
-        Value::ULInt(x) => json!(x),
-        o => json!(format!("{o:?}")),
-    }
+/// The model value of a counter value (real - off); anything further from the window than a 32-bit
+/// integer can say is reported as the nearest 32-bit integer (far from anything the model expects in a windowed run).
+fn cnum(v: &Value, off: i128) -> J {
+    let x: i128 = match v {
+        Value::Int(x) => *x as i128,
+        Value::DInt(x) => *x as i128,
+        Value::UDInt(x) => *x as i128,
+        Value::LInt(x) => *x as i128,
+        Value::ULInt(x) => *x as i128,
+        o => return json!(format!("{o:?}")),
+    };
+    json!((x - off).clamp(i32::MIN as i128, i32::MAX as i128) as i64)
 }
 
 pub fn run(args: &[String]) -> i32 {
@@ -235,6 +253,7 @@ fn run_script(sc: &J, o: &mut Out) {
     let kind = sc["kind"].as_str().unwrap();
     let via = sc["via"].as_str().unwrap();
     let ct = sc["ctype"].as_str().unwrap();
+    let off: i128 = sc["off"].as_str().and_then(|x| x.parse().ok()).unwrap_or(0);
     o.line(&json!({"a": "Reset", "kind": kind, "via": via, "ctype": ct, "hasLo": sc["hasLo"], "lo": sc["lo"], "hasHi": sc["hasHi"], "hi": sc["hi"]}));
     let mut now: i64 = 0;
     if via == "struct" {
@@ -263,7 +282,7 @@ fn run_script(sc: &J, o: &mut Out) {
                 Some(Value::Instance(id)) => id,
                 o => panic!("instance f{i}: {o:?}"),
             };
-            h.runtime_mut().storage_mut().set_instance_var(id, "CV", cval(ct, st["cv"].as_i64().unwrap()));
+            h.runtime_mut().storage_mut().set_instance_var(id, "CV", cval(ct, st["cv"].as_i64().unwrap(), off));
             o.line(st);
             continue;
         }
@@ -284,7 +303,7 @@ fn run_script(sc: &J, o: &mut Out) {
                         h.set_input(v, Value::Bool(bo(input, k)));
                     }
                 }
-                h.set_input("xpv", cval(ct, input["pv"].as_i64().unwrap()));
+                h.set_input("xpv", cval(ct, input["pv"].as_i64().unwrap(), off));
             }
             "R_TRIG" | "F_TRIG" => h.set_input("xclk", Value::Bool(bo(input, "clk"))),
             "SR" => {
@@ -310,8 +329,8 @@ fn run_script(sc: &J, o: &mut Out) {
                 };
                 json!({"q": gb(&format!("oq{i}")), "et": et})
             }
-            "CTU" | "CTD" => json!({"q": gb(&format!("oq{i}")), "cv": cnum(&h.get_output(&format!("ocv{i}")).unwrap())}),
-            "CTUD" => json!({"qu": gb(&format!("oqu{i}")), "qd": gb(&format!("oqd{i}")), "cv": cnum(&h.get_output(&format!("ocv{i}")).unwrap())}),
+            "CTU" | "CTD" => json!({"q": gb(&format!("oq{i}")), "cv": cnum(&h.get_output(&format!("ocv{i}")).unwrap(), off)}),
+            "CTUD" => json!({"qu": gb(&format!("oqu{i}")), "qd": gb(&format!("oqd{i}")), "cv": cnum(&h.get_output(&format!("ocv{i}")).unwrap(), off)}),
             "R_TRIG" | "F_TRIG" => json!({"q": gb(&format!("oq{i}"))}),
             _ => json!({"q1": gb(&format!("oq{i}"))}),
         };
